@@ -284,6 +284,11 @@ func engineH5(rc *RunCtx) *Outcome {
 	return o
 }
 
+// file names: the usual pair, the same base name in two directories, relative names, one name a
+// prefix of the other, a blank in a directory name
+var h5FilePairs = [][]string{{"/sim/a.h5", "/sim/b.h5"}, {"/sim/a.h5", "/sim/b.h5"}, {"/one/data.h5", "/two/data.h5"}, {"a.h5", "./b.h5"},
+	{"/sim/x.h5", "/sim/x.h5.bak"}, {"/my data/a.h5", "/my data/b.h5"}}
+
 var h5Paths = []string{"/d0", "/g/d1", "/g/h/d2", "/g/d3"}
 
 func drawShape(w *simrt.Tape, allowZero bool) []int {
@@ -417,7 +422,7 @@ func h5Run[T num, A arr[T, A]](k kit[T, A], mode int, rc *RunCtx, o *Outcome) {
 func h5Sequential[T num, A arr[T, A]](k kit[T, A], rc *RunCtx, o *Outcome, ctl *hdf5.Control, faults bool) {
 	w := rc.W
 	files := map[string]*mFile{}
-	fnames := []string{"/sim/a.h5", "/sim/b.h5"}[:1+w.Choose(2)]
+	fnames := h5FilePairs[w.Choose(len(h5FilePairs))][:1+w.Choose(2)]
 	nOps := 6 + w.Choose(25)
 	next := 1.0
 	uniq := func(n int) []float64 {
@@ -1001,7 +1006,7 @@ func h5PorcupineModel() porcupine.Model {
 func h5Concurrent[T num, A arr[T, A]](k kit[T, A], rc *RunCtx, o *Outcome, ctl *hdf5.Control) {
 	w := rc.W
 	ctl.Latency = w.Bool(50)
-	fnames := []string{"/sim/c.h5", "/sim/d.h5"}
+	fnames := h5FilePairs[w.Choose(len(h5FilePairs))]
 	nDS := 1 + w.Choose(4) // with four, each of the two files can hold two datasets that do not exist yet
 	type dsInfo struct {
 		path  string
